@@ -145,6 +145,8 @@ func c07Request(class string) []byte {
 			"X-Forwarded-For: 1.2.3.4.5, ::::, " + strings.Repeat("9", 300) + "\r\nContent-Type: multipart/form-data; boundary=\r\nContent-Length: 10\r\n\r\nnot-gzip!!")
 	case "hostileframing":
 		return []byte("POST /ok HTTP/1.1\r\nHost: w.test\r\nTransfer-Encoding: gzip\r\n\r\n")
+	case "removedstandard":
+		return []byte("DELETE /ok HTTP/1.1\r\nHost: w.test\r\n\r\n")
 	case "absoluteuri":
 		return []byte("GET http://w.test/ok HTTP/1.1\r\nHost: w.test\r\n\r\n")
 	case "multipart":
@@ -313,6 +315,14 @@ func TestC07(t *testing.T) {
 			}
 			return c.SendString("BODY")
 		})
+		app.Get("/burst/sendfile/:n", func(c fiber.Ctx) error {
+			n, _ := strconv.Atoi(c.Params("n"))
+			return c.SendFile(dlFile, fiber.SendFile{MaxAge: 1000 + n})
+		})
+		app.Get("/burst/download/:n", func(c fiber.Ctx) error {
+			n, _ := strconv.Atoi(c.Params("n"))
+			return c.SendFile(dlFile, fiber.SendFile{MaxAge: 500000 + n, Download: true})
+		})
 		ln := fasthttputil.NewInmemoryListener()
 		go func() { _ = app.Listener(ln, fiber.ListenConfig{DisableStartupMessage: true}) }()
 		return ln
@@ -322,7 +332,7 @@ func TestC07(t *testing.T) {
 		lns[k] = mk(k)
 	}
 	respDeadline := 15 * time.Second
-	var n, nHostileArg, nMalformed, nHostileVariants int
+	var n, nHostileArg, nMalformed, nHostileVariants, nBurst int
 	readCases(t, "VERIF_CASES", func(line []byte) {
 		var cs struct {
 			First  string `json:"first"`
@@ -429,6 +439,62 @@ func TestC07(t *testing.T) {
 				o.sample(map[string]any{"first": cs.First, "helper": cs.Helper, "arg": cs.Arg, "ctx": cs.Ctx, "status": resp.Status, "headers": resp.Headers})
 			}
 		}
+		if cs.First == "burst" {
+			// several rounds of 32 connections at once, one request each, all for a target whose options nobody used before;
+			// the connections are opened first and the requests written together
+			nBurst++
+			const k, rounds = 32, 6
+			var bad []string
+			for round := 0; round < rounds && len(bad) == 0; round++ {
+				target := "/ok"
+				if cs.Helper != "ok" {
+					target = fmt.Sprintf("/burst/%s/%d", cs.Helper, n*100+round)
+				}
+				conns := make([]net.Conn, k)
+				for i := range conns {
+					c, err := lns[cs.Ctx].Dial()
+					if err != nil {
+						t.Fatal(err)
+					}
+					_ = c.SetDeadline(time.Now().Add(respDeadline))
+					conns[i] = c
+				}
+				res := make(chan string, k)
+				start := make(chan struct{})
+				for _, conn := range conns {
+					go func(conn net.Conn) {
+						defer conn.Close()
+						<-start
+						if _, err := conn.Write([]byte("GET " + target + " HTTP/1.1\r\nHost: w.test\r\n\r\n")); err != nil {
+							res <- "write: " + err.Error()
+							return
+						}
+						resp, err := readStrict(bufio.NewReader(conn))
+						switch {
+						case err != nil:
+							res <- "no response: " + err.Error()
+						case resp.Err != "":
+							res <- "not well-formed: " + resp.Err
+						case resp.Status != 200:
+							res <- fmt.Sprintf("status %d", resp.Status)
+						default:
+							res <- ""
+						}
+					}(conn)
+				}
+				close(start)
+				for i := 0; i < k; i++ {
+					if r := <-res; r != "" {
+						bad = append(bad, r)
+					}
+				}
+			}
+			if len(bad) > 0 {
+				fail("concurrent-requests-not-all-answered", "every request answered 200", fmt.Sprintf("%d unanswered or wrong, e.g. %s", len(bad), bad[0]))
+				respDeadline = time.Second
+			}
+			return
+		}
 		exchange(req)
 		if (cs.First == "hostileheaders" || cs.First == "hostileframing") && cs.Helper == "set" { // the members of the class, one hostile value each
 			for i, hreq := range c07Hostile(cs.First) {
@@ -530,6 +596,6 @@ func TestC07(t *testing.T) {
 		}
 	}
 	_ = net.ErrClosed
-	o.summary(map[string]any{"cases": n, "helper_calls_with_hostile_argument": nHostileArg, "malformed_or_oversized_requests": nMalformed, "hostile_header_variants": nHostileVariants,
+	o.summary(map[string]any{"cases": n, "helper_calls_with_hostile_argument": nHostileArg, "malformed_or_oversized_requests": nMalformed, "hostile_header_variants": nHostileVariants, "concurrent_bursts": nBurst,
 		"mutants": nFuzz, "mutants_answered": nResp, "mutants_incomplete_no_answer": nSilent, "mutant_statuses": statusSeen, "violations": o.nV})
 }
